@@ -2,6 +2,7 @@ package main
 
 import (
 	"fmt"
+	"go/token"
 	"go/types"
 	"math"
 	"regexp"
@@ -173,6 +174,50 @@ func installMore(m *Machine) {
 		// a mutex inside the copy starts unlocked
 		return nilErr()
 	}
+	// compression codecs: an opaque pair. Compress(x) = magic ++ x, Decompress(magic ++ x) = x, anything that does
+	// not start with the codec's magic is "invalid compressed data" (kevo's payloads start with an operation byte
+	// 1..3, never with a frame magic). The codecs' internals are outside the claim.
+	zmagic := []byte{0x28, 0xB5, 0x2F, 0xFD}
+	smagic := []byte{0xFF, 0x06, 0x00, 0x00}
+	enc := func(magic []byte) func(r *Run, src, dst []Value) Value {
+		return func(r *Run, src, dst []Value) Value {
+			r.stub("compression codec (opaque pair: Decompress(Compress(x)) = x)")
+			out := append([]Value{}, dst...)
+			for _, b := range magic {
+				out = append(out, Num{W: 8, C: uint64(b)})
+			}
+			out = append(out, src...)
+			return Slice{S: out}
+		}
+	}
+	dec := func(magic []byte) func(r *Run, in, dst []Value) Value {
+		return func(r *Run, in, dst []Value) Value {
+			r.stub("compression codec (opaque pair: Decompress(Compress(x)) = x)")
+			if len(in) < len(magic) {
+				return Tuple{Slice{Nil: true}, r.newError("invalid compressed data: too short")}
+			}
+			for i, b := range magic {
+				if !r.branch(r.numBinop(token.EQL, in[i].(Num), Num{W: 8, C: uint64(b)}).(Bool)) {
+					return Tuple{Slice{Nil: true}, r.newError("invalid compressed data: bad magic")}
+				}
+			}
+			out := append(append([]Value{}, dst...), in[len(magic):]...)
+			return Tuple{Slice{S: out}, nilErr()}
+		}
+	}
+	sl := func(v Value) []Value {
+		if s, ok := v.(Slice); ok {
+			return s.S
+		}
+		return nil
+	}
+	ze, zd, se, sd := enc(zmagic), dec(zmagic), enc(smagic), dec(smagic)
+	I["(*github.com/klauspost/compress/zstd.Encoder).EncodeAll"] = func(r *Run, fr *Frame, a []Value) Value { return ze(r, sl(a[1]), sl(a[2])) }
+	I["(*github.com/klauspost/compress/zstd.Decoder).DecodeAll"] = func(r *Run, fr *Frame, a []Value) Value { return zd(r, sl(a[1]), sl(a[2])) }
+	I["(*github.com/klauspost/compress/zstd.Encoder).Close"] = func(r *Run, fr *Frame, a []Value) Value { return nilErr() }
+	I["(*github.com/klauspost/compress/zstd.Decoder).Close"] = func(r *Run, fr *Frame, a []Value) Value { return nil }
+	I["github.com/klauspost/compress/snappy.Encode"] = func(r *Run, fr *Frame, a []Value) Value { return se(r, sl(a[1]), sl(a[0])) }
+	I["github.com/klauspost/compress/snappy.Decode"] = func(r *Run, fr *Frame, a []Value) Value { return sd(r, sl(a[1]), sl(a[0])) }
 	I["io.ReadAll"] = func(r *Run, fr *Frame, a []Value) Value {
 		// only *os.File readers occur in kevo
 		rd := a[0].(Iface)
